@@ -3,6 +3,7 @@ import Driver.Img
 import GinjaxVerif.Model.Action
 import GinjaxVerif.Model.C05
 import GinjaxVerif.Model.C05Contr
+import GinjaxVerif.Model.C05Extras
 open Lean Driver GinjaxVerif GinjaxVerif.C05
 
 /-! Driver ops for C05: evaluate an expression tree over integer leaf images with the Lean model
@@ -56,6 +57,21 @@ def tyJson {d : Nat} (t : Ty d) : List (String × Json) :=
   [("k", jNat t.k), ("parity", jNat t.p), ("dims", jList jNat (fnToList t.dims)),
    ("torus", jList jBool (fnToList t.torus))]
 
+def toFinList (d : Nat) (n : List Nat) : List (Fin d) :=
+  n.filterMap (fun a => if h : a < d then some (⟨a, h⟩ : Fin d) else none)
+
+def gimgJson {d : Nat} (G : GImg Int d) : Json :=
+  Json.mkObj (tyJson G.ty ++ [("image", imgToJson G.img)])
+
+/-- a bare tensor `{"shape": [d]*k, "data": [...]}` (the `fill` argument; `k = len(fill.shape)`) -/
+def parseTensor (d : Nat) (j : Json) : R (Nat × (List (Fin d) → Int)) := do
+  let shape ← listF asNat j "shape"
+  let data ← listF asInt j "data"
+  if shape.any (· ≠ d) then throw "tensor axes must have extent d"
+  if data.length ≠ shape.foldl (· * ·) 1 then throw "data length does not match shape"
+  let arr := data.toArray
+  pure (shape.length, fun n => arr.getD (ravelIdx shape (n.map (·.val))) 0)
+
 def handle (op : String) (j : Json) : R Json := do
   match op with
   | "c05.eval" | "c05.ty" =>
@@ -99,6 +115,55 @@ def handle (op : String) (j : Json) : R Json := do
     match contractionIndices ik.toNat fk.toNat (sw.map (fun p => (p.getD 0 0, p.getD 1 0))) with
     | none => throw "rejected by the model"
     | some res => pure (jList (jList (fun p => jList jNat [p.1, p.2])) res)
+  | "c05.kronecker_symbol" =>
+    -- `KroneckerDeltaSymbol.get(D, k)`
+    let d ← natF j "d"
+    let k ← natF j "k"
+    if !kroneckerOk d k then throw "assert D > 1 / assert k > 1"
+    let tens := List.replicate k d
+    let vals := (boxIdx tens).map (fun n => kroneckerSym d k (toFinList d n))
+    pure (Json.mkObj [("shape", jList jNat tens), ("data", jList jInt vals)])
+  | "c05.kronecker_delta" =>
+    -- `get_kronecker_delta_image(N, D, k)`
+    let d ← natF j "d"
+    let k ← natF j "k"
+    let N ← natF j "N"
+    if !kroneckerOk d k then throw "assert D > 1 / assert k > 1"
+    pure (gimgJson (kroneckerDeltaG (R := Int) (d := d) N k))
+  | "c05.fill" =>
+    -- `GeometricImage.fill(N: tuple, parity, D, fill, is_torus: tuple)`
+    let d ← natF j "d"
+    let dims ← listF asNat j "dims"
+    if dims.length ≠ d then throw "assert len(spatial_dims) == D"
+    let tor ← listF asBool j "torus"
+    if tor.length ≠ d then throw "torus must have length d"
+    let (k, c) ← field j "fill" >>= parseTensor d
+    pure (gimgJson (GImg.fill (listToFn d 0 dims) k c (← natF j "parity") (listToFn d false tor)))
+  | "c05.zeros" =>
+    let d ← natF j "d"
+    let dims ← listF asNat j "dims"
+    if dims.length ≠ d then throw "assert len(spatial_dims) == D"
+    let tor ← listF asBool j "torus"
+    if tor.length ≠ d then throw "torus must have length d"
+    pure (gimgJson (GImg.zeros (R := Int) (listToFn d 0 dims) (← natF j "k") (← natF j "parity")
+      (listToFn d false tor)))
+  | "c05.activation" =>
+    let d ← natF j "d"
+    let G ← field j "leaf" >>= parseLeaf d
+    let name ← strF j "fn"
+    match namedFn name with
+    | none => throw s!"unknown function {name}"
+    | some f =>
+      match G.activation f with
+      | none => throw "assert self.k == 0"
+      | some H => pure (gimgJson H)
+  | "c05.img_eq" =>
+    let d ← natF j "d"
+    let A ← field j "a" >>= parseLeaf d
+    let B ← field j "b" >>= parseLeaf d
+    pure (jBool (GImg.eqB A B))
+  | "c05.tensor_name" =>
+    pure (jStr (tensorName (← natF j "k") (← natF j "parity")))
   | _ => throw s!"unknown op {op}"
 
 end Driver.C05
